@@ -46,6 +46,8 @@ Init0 == [
   shown    |-> {},       \* bars that appeared in some frame
   gone     |-> {},       \* bars that appeared and were then absent from a later frame
   termSeen |-> {},       \* bars that some frame or getter has shown in a terminal state
+  termCnt  |-> EmptyF,   \* bar -> number of frames that showed it in a terminal state
+  lateSucc |-> {},       \* bars created behind a predecessor that had already been drawn twice in its terminal state
   compSeen |-> {},       \* bars some getter reported completed
   abrtSeen |-> {},       \* bars some getter reported aborted
   dropped  |-> {},       \* bars on which Abort(drop=true) has returned
@@ -66,6 +68,8 @@ Init0 == [
   debug    |-> 0,
   notifies |-> <<>>,
   hung     |-> FALSE,
+  detached |-> {},       \* bars whose push back into the container travelled outside the queue (n > q)
+  detachedF |-> {},      \* ... since the frame before the previous one
   renderStarted |-> TRUE
 ]
 
@@ -89,6 +93,17 @@ Removed(s, b)  == /\ b \in DOMAIN s.final /\ ~Poppable(s, b) /\ ~HasSucc(s, b)
                      ELSE s.bars[b].rm /\ FALSE \notin ab
 
 ---------------------------------------------------------------------------
+(* Mechanisms of the recorded findings.  A rule whose violation coincides with one of them  *)
+(* is reported under a name that carries the mechanism, so that the findings file can list  *)
+(* it precisely; the same rule failing without the mechanism keeps its plain name.          *)
+Dp(s, bs) == IF bs \subseteq s.detached THEN "/detached-push" ELSE ""
+DpAny(s)  == IF s.detached # {} THEN "/detached-push" ELSE ""
+Orphans(s) == {b \in DOMAIN s.bars : s.bars[b].ok /\ s.bars[b].after # "" /\ b \notin s.shown
+                                     /\ s.bars[b].after \in s.termSeen}
+Doubles(s) == {b \in DOMAIN s.bars : s.bars[b].ok /\ s.bars[b].after # "" /\
+                  \E c \in DOMAIN s.bars : c # b /\ s.bars[c].ok /\ s.bars[c].after = s.bars[b].after}
+SyncBars(s) == {b \in DOMAIN s.bars : s.bars[b].nsync > 0}
+
 (* frame rules, evaluated when a frame is written *)
 
 PrevGroups(s) == IF s.frames = <<>> THEN <<>> ELSE s.frames[Len(s.frames)].groups
@@ -103,7 +118,7 @@ FrameRules(s, e) ==
   \* C05: no bar twice in one frame
   (IF Cardinality(cur) # Len(gs) THEN <<B("C05", "dup-in-frame", e, ToString(names))>> ELSE <<>>)
   \* C05: a bar that vanished never comes back
-  \o (IF cur \cap s.gone # {} THEN <<B("C05", "reappears", e, ToString(cur \cap s.gone))>> ELSE <<>>)
+  \o (IF cur \cap s.gone # {} THEN <<B("C05", "reappears" \o Dp(s, cur \cap s.gone), e, ToString(cur \cap s.gone))>> ELSE <<>>)
   \* C05: every bar added before the cycle began is drawn, unless it was allowed to leave
   \*      or is waiting behind a predecessor
   \o (LET must == {b \in DOMAIN s.bars :
@@ -111,7 +126,7 @@ FrameRules(s, e) ==
                       /\ ~Queued(s, b)
                       /\ ~(b \in s.termSeen /\ Leaves(s, b))}
           miss == must \ cur
-      IN IF miss # {} /\ ~s.fault THEN <<B("C05", "missing", e, ToString(miss))>> ELSE <<>>)
+      IN IF miss # {} /\ ~s.fault THEN <<B("C05", "missing" \o Dp(s, miss), e, ToString(miss))>> ELSE <<>>)
   \* C05/C17: unknown bars never show up
   \o (IF cur \ DOMAIN s.bars # {} THEN <<B("C05", "unknown-bar", e, ToString(cur \ DOMAIN s.bars))>> ELSE <<>>)
   \* C17: a queued bar is not displayed together with its predecessor
@@ -124,7 +139,11 @@ FrameRules(s, e) ==
                      /\ s.bars[b].after \in prev /\ s.bars[b].after \notin cur
                      /\ s.bars[b].ret # 0 /\ s.frames # <<>> /\ s.bars[b].ret < s.frames[Len(s.frames)].cyc
                      /\ b \notin cur /\ b \notin s.gone}
-      IN IF late # {} /\ ~s.fault THEN <<B("C17", "successor-not-shown", e, ToString(late))>> ELSE <<>>)
+      IN IF late # {} /\ ~s.fault
+         THEN <<B("C17", "successor-not-shown" \o (IF late \subseteq Doubles(s) THEN "/two-successors"
+                                                    ELSE IF late \subseteq (Doubles(s) \cup s.lateSucc) THEN "/late-successor"
+                                                    ELSE ""), e, ToString(late))>>
+         ELSE <<>>)
   \* C11: no row reports both terminal states
   \o (LET both == {i \in DOMAIN gs : gs[i].fl = "CA"}
       IN IF both # {} THEN <<B("C11", "row-completed-and-aborted", e, ToString({gs[i].b : i \in both}))>> ELSE <<>>)
@@ -230,13 +249,13 @@ FinalRules(s, e) ==
              stale == {b \in okb \cap s.shown : b \in DOMAIN s.final /\
                           (LastRow(b).cur # s.final[b].cur \/ LastRow(b).fl # Fl(s.final[b]))}
              never == {b \in okb : b \notin s.shown}
-         IN (IF miss # {} THEN <<B("C03", "last-frame-missing", e, ToString(miss))>> ELSE <<>>)
+         IN (IF miss # {} THEN <<B("C03", "last-frame-missing" \o DpAny(s), e, ToString(miss))>> ELSE <<>>)
             \o (IF left # {} THEN <<B("C03", "last-frame-has-removed", e, ToString(left))>> ELSE <<>>)
-            \o (IF stale # {} THEN <<B("C03", "last-row-not-final", e, ToString(stale))>> ELSE <<>>)
+            \o (IF stale # {} THEN <<B("C03", "last-row-not-final" \o DpAny(s), e, ToString(stale))>> ELSE <<>>)
             \o (IF never \cap {b \in okb : Queued(s, b)} # {}
                 THEN <<B("C17", "queued-never-shown", e, ToString(never))>> ELSE <<>>)
             \o (IF never \ {b \in okb : Queued(s, b)} # {}
-                THEN <<B("C05", "never-shown", e, ToString(never))>> ELSE <<>>))
+                THEN <<B("C05", "never-shown" \o DpAny(s), e, ToString(never))>> ELSE <<>>))
    ELSE <<>>)
   \* C13: every accepted line is in the output exactly once, in call order
   \o (LET W   == s.writes
@@ -264,10 +283,14 @@ FinalRules(s, e) ==
       THEN <<B("C14", "notifier-count", e, ToString(Len(s.notifies)))>> ELSE <<>>)
   \o (IF s.cfg.notifier /\ Len(s.notifies) >= 1 /\ NormalEnd(s) /\ s.cfg.refresh = "auto" /\ s.renderStarted
       THEN (LET got == Range_(s.notifies[1]) IN
-            IF got # {b \in lastS : b \in okb /\ ~Poppable(s, b)} THEN <<B("C05", "notifier-list", e, ToString(<<got, lastS>>))>> ELSE <<>>)
+            IF got # {b \in lastS : b \in okb /\ ~Poppable(s, b)} THEN <<B("C05", "notifier-list" \o DpAny(s), e, ToString(<<got, lastS>>))>> ELSE <<>>)
       ELSE <<>>)
   \* C16
-  \o (IF e.nleaks # 0 THEN <<B("C16", "goroutine-leak", e, ToString(e.leaks))>> ELSE <<>>)
+  \o (IF e.nleaks # 0
+      THEN <<B(IF s.fault THEN "C16,C15" ELSE "C16", "goroutine-leak" \o (IF s.detached # {} THEN "/detached-push"
+                                           ELSE IF s.fault /\ SyncBars(s) # {} THEN "/render-error-during-width-sync"
+                                           ELSE ""), e, ToString(e.leaks))>>
+      ELSE <<>>)
   \* C15: the error is reported exactly once
   \o (IF s.fault /\ s.debug # 1 THEN <<B("C15", "debug-lines", e, ToString(s.debug))>> ELSE <<>>)
   \o (IF ~s.fault /\ s.debug # 0 THEN <<B("C15", "spurious-debug", e, ToString(s.debug))>> ELSE <<>>)
@@ -297,12 +320,14 @@ Step(s, e) ==
     [] e.ev = "inv" /\ e.op = "add" ->
          [s EXCEPT !.bars = @ @@ (e.b :> [total |-> e.total, rm |-> e.rm, nopop |-> e.nopop, after |-> e.after,
                                           hasprio |-> e.hasprio, prio |-> e.prio, listens |-> e.listens,
-                                          npre |-> e.npre, trim |-> e.trim,
+                                          npre |-> e.npre, trim |-> e.trim, nsync |-> e.psync + e.async,
                                           inv |-> e.seq, ret |-> 0, ok |-> FALSE])]
     [] e.ev = "ret" /\ e.op = "add" ->
          [s EXCEPT !.bars[e.b].ret = e.seq, !.bars[e.b].ok = (e.err = "")]
     [] e.ev = "created" ->
          [s EXCEPT !.created = Append(@, e.b),
+                   !.lateSucc = IF s.bars[e.b].after \in DOMAIN s.termCnt /\ s.termCnt[s.bars[e.b].after] >= 2
+                                THEN @ \cup {e.b} ELSE @,
                    !.prio = @ @@ (e.b :> IF s.bars[e.b].hasprio THEN s.bars[e.b].prio ELSE Len(s.created))]
     [] e.ev = "ret" /\ e.op = "prio" /\ e.b \in DOMAIN s.prio ->
          \* honoured unless the bar has already left the display
@@ -358,6 +383,9 @@ Step(s, e) ==
                    !.gone = @ \cup (prev \ cur),
                    !.termSeen = @ \cup {e.groups[i].b : i \in {j \in DOMAIN e.groups : Terminal(e.groups[j].fl)}},
                    !.texts = @ \o [i \in DOMAIN e.text |-> [line |-> e.text[i], frame |-> k]],
+                   !.detachedF = {},
+                   !.termCnt = LET tb == {e.groups[i].b : i \in {j \in DOMAIN e.groups : Terminal(e.groups[j].fl)}}
+                               IN [b \in DOMAIN @ \cup tb |-> (IF b \in DOMAIN @ THEN @[b] ELSE 0) + (IF b \in tb THEN 1 ELSE 0)],
                    !.fmts = <<>>]
     [] e.ev = "fault" -> [s EXCEPT !.fault = TRUE, !.faultAt = e.seq]
     [] e.ev = "debug" -> [s EXCEPT !.debug = @ + 1]
@@ -365,6 +393,7 @@ Step(s, e) ==
          [s EXCEPT !.listens = IF e.d \in DOMAIN @ THEN [@ EXCEPT ![e.d] = @ + 1] ELSE @ @@ (e.d :> 1)]
     [] e.ev = "notify" -> [s EXCEPT !.notifies = Append(@, e.bars)]
     [] e.ev = "hang" -> [s EXCEPT !.hung = TRUE]
+    [] e.ev = "detached" -> [s EXCEPT !.detached = @ \cup {e.b}, !.detachedF = @ \cup {e.b}]
     [] OTHER -> s
 
 Check(s, e) ==
@@ -382,8 +411,16 @@ Check(s, e) ==
     [] e.ev = "onshutdown" ->
          \* C14: listeners are notified before Wait returns
          IF s.waitAt # 0 THEN <<B("C14", "listener-after-wait", e, e.d)>> ELSE <<>>
-    [] e.ev = "hang" -> <<B("C01", "hang", e, ToString(<<e.kind, e.pending>>))>>
-    [] e.ev = "panic" -> <<B("C02", "panic", e, e.msg)>>
+    [] e.ev = "hang" ->
+         LET why == IF s.detached # {} THEN "/detached-push"
+                    ELSE IF Orphans(s) # {} /\ Orphans(s) \subseteq (Doubles(s) \cup s.lateSucc) THEN "/orphaned-successor"
+                    ELSE IF s.fault /\ SyncBars(s) # {} THEN "/render-error-during-width-sync"
+                    ELSE ""
+             ps  == "C01,C02" \o (IF s.fault THEN ",C15" ELSE "") \o (IF Orphans(s) # {} THEN ",C17" ELSE "")
+                              \o (IF s.stopReq THEN ",C14" ELSE "")
+         IN <<B(ps, "hang" \o why, e, ToString(<<e.kind, e.pending>>))>>
+    [] e.ev = "panic" ->
+         <<B("C02", "panic" \o (IF s.detached # {} /\ e.closedsend THEN "/detached-push" ELSE ""), e, e.msg)>>
     [] e.ev = "latewrite" -> <<B("C03", "write-after-wait", e, "late")>>
     [] e.ev = "quiesce" -> FinalRules(s, e) \o OrderRules(s, e)
     [] OTHER -> <<>>
